@@ -225,9 +225,7 @@ def apply(st, op, params, check=True):
                 raise Disabled("incumbent not in step with the shadow")
             x, r, ns, ev = s.pts[k][0].copy(), s.mean(k), len(s.pts[k][1]), s.pts[k][2]
             m.save_point(m.xopt(abs_coordinates=True), m.ropt(), m.nsamples[m.kopt], m.eval_num[m.kopt], x_in_abs_coords=True)
-            obj = s.objof(x, r)
-            if s.saved is None or np.isnan(s.saved["obj"]) or obj <= s.saved["obj"]:
-                s.saved = {"x": x, "r": r.copy(), "ns": ns, "ev": ev, "obj": obj}
+            _shadow_save(s, {"x": x, "r": r.copy(), "ns": ns, "ev": ev, "obj": s.objof(x, r)})
         elif kind == "save_new":
             _, pi, L = op
             x = s.xbase + np.array(PTS[pi]) + np.array([0.125, 0.125])
@@ -298,12 +296,27 @@ def apply(st, op, params, check=True):
     return check_state(st, params) if check else []
 
 
+def _shadow_save(s, cand):
+    """"better or equal replaces"; a NaN never replaces a number, anything replaces a NaN.  Objectives that agree to rounding
+    (the model accumulates a running mean, the shadow averages the sample list) are a tie whose outcome the property does not
+    determine: both points stay acceptable answers of the final-result query."""
+    obj = cand["obj"]
+    if not hasattr(s, "saved_alts"):
+        s.saved_alts = []
+    if s.saved is None or np.isnan(s.saved["obj"]):
+        s.saved, s.saved_alts = cand, []
+        return
+    old = s.saved["obj"]
+    if np.isfinite(obj) and np.isfinite(old) and abs(obj - old) <= 1e-12 * max(1.0, abs(old)):
+        s.saved_alts = s.saved_alts + [s.saved]
+        s.saved = cand
+    elif obj <= old:
+        s.saved, s.saved_alts = cand, []
+
+
 def _save(m, s, x, r, ns, ev):
     m.save_point(x.copy(), r.copy(), ns, ev, x_in_abs_coords=True)
-    obj = s.objof(x, r)
-    # "better or equal replaces"; a NaN never replaces a number, anything replaces a NaN
-    if s.saved is None or np.isnan(s.saved["obj"]) or obj <= s.saved["obj"]:
-        s.saved = {"x": x.copy(), "r": r.copy(), "ns": ns, "ev": ev, "obj": obj}
+    _shadow_save(s, {"x": x.copy(), "r": r.copy(), "ns": ns, "ev": ev, "obj": s.objof(x, r)})
 
 
 def _eq(a, b, tol=1e-12):
@@ -364,6 +377,7 @@ def check_state(st, params):
     cands = [{"x": s.pts[m.kopt][0], "r": s.mean(m.kopt), "ns": len(s.pts[m.kopt][1]), "ev": s.pts[m.kopt][2], "obj": o[m.kopt]}]
     if s.saved is not None:
         cands.append(s.saved)
+        cands += list(getattr(s, "saved_alts", []))
     best = min(rank(c["obj"]) for c in cands)
     ok = False
     for w in cands:
@@ -400,6 +414,7 @@ def key(st):
         parts.append(bytes(bytearray(int(t) for t in alias)))
     else:
         parts.append(b"nosave")
+    parts.append(b"alts:" + b",".join(b"%d" % a["ev"] for a in getattr(s, "saved_alts", [])))
     for p in s.pts:
         parts.append(b"#%d:" % p[2])
         for r in p[1]:
